@@ -256,3 +256,40 @@ def systemize_reads_only_its_own_variant(K, vid):
     K.ensure("both arrays come from the variant being systemized", all(c[0][0] is K.lift(v) or c[0][0] is v for c in calls))
     mn = native._invariant._min_shift
     K.ensure("current and once-lagged first columns", sorted(c[1].get("shift_in_first_column") for c in calls) == [mn - 1, mn])
+
+
+# ------------------------------------------------------------------------------ the state a copy / pickle carries
+from irispie.simultaneous import _invariants as SINV
+
+
+@contract("C20", targets=["irispie.simultaneous._invariants:Invariant.__getstate__", "irispie.simultaneous._invariants:Invariant.__setstate__",
+                          "irispie.simultaneous._tolerance:Inlay.override_tolerance"], instances=[("simultaneous",), ("simultaneous2",)], cross=2, opts={"max_paths": 100})
+def invariant_state_round_trip_keeps_every_setting(K, kind):
+    """copy(), pickle and dill rebuild the invariant from __getstate__/__setstate__: every serialized slot of the
+    rebuilt object is the value that was saved - including settings the user changed from their defaults
+    (tolerances) - so a clone behaves as the original (same unit-root classification, same equality checks)."""
+    m0 = model(kind).copy()
+    m = K.lift(m0)
+    K.method(m, "override_tolerance", eigenvalue=1e-6, equality=1e-9)
+    inv = K.attr(m, "_invariant")
+    K.ensure("the override is in force", dict(K.attr(inv, "tolerance")) == {"eigenvalue": 1e-6, "equality": 1e-9})
+    state = K.method(inv, "__getstate__")
+    slots = list(SINV.Invariant._serialized_slots)
+    K.ensure("the state holds every serialized slot", sorted(k for k in K.items(state)) == sorted(slots))
+    fresh = K.obj(SINV.Invariant, **{k: None for k in SINV.Invariant.__slots__}) if K.symbolic else SINV.Invariant()
+    K.stubbed(SINV.Invariant._populate_derived_attributes, lambda self: None, "derived attributes are recomputed from the serialized ones (descriptors; outside this contract)",
+              lambda: K.method(fresh, "__setstate__", state)) if K.symbolic else _native_setstate(fresh, state)
+    for k in slots:
+        got, want = K.attr(fresh, k), K.index(state, k)
+        same = (got is want) or (isinstance(got, (dict, list, tuple, str, int, float, bool, type(None))) and got == want)
+        K.ensure(f"slot {k} restored as saved", same)
+    K.ensure("tolerances of the rebuilt invariant are the user's, not the defaults", dict(K.attr(fresh, "tolerance")) == {"eigenvalue": 1e-6, "equality": 1e-9})
+
+
+def _native_setstate(fresh, state):
+    orig = SINV.Invariant._populate_derived_attributes
+    SINV.Invariant._populate_derived_attributes = lambda self: None
+    try:
+        fresh.__setstate__(state)
+    finally:
+        SINV.Invariant._populate_derived_attributes = orig
